@@ -366,6 +366,18 @@ func (p *Parser) expr(in comb.Input) (comb.Output, bool) {
 
 // Parse is the topmost parser combinator for parsing a regular expression read from the input.
 func (p *Parser) Parse(regex string) (comb.Output, bool) {
+	// The empty string is not a regular expression (and there is no input to read from).
+	if len(regex) == 0 {
+		return comb.Output{}, false
+	}
+
 	in := newStringInput(regex)
-	return p.regex(in)
+
+	// The whole input must be a regular expression, not just a prefix of it.
+	out, ok := p.regex(in)
+	if !ok || out.Remaining != nil {
+		return comb.Output{}, false
+	}
+
+	return out, true
 }
